@@ -37,6 +37,28 @@ PROBES = [
 ]
 
 
+class MoneyImpl:
+    def __init__(self, i):
+        self.i = i
+
+    def coerce_output(self, v):
+        return "%d:%s" % (self.i, v)
+
+    def coerce_input(self, v):
+        return int(v) + self.i
+
+    def parse_literal(self, ast):
+        return int(ast.value) + 10 * self.i
+
+
+class TagImpl:
+    def __init__(self, i):
+        self.i = i
+
+    async def on_field_execution(self, directive_args, next_resolver, parent, args, ctx, info):
+        return "%s-tag%d" % (await next_resolver(parent, args, ctx, info), self.i)
+
+
 def register(i, kinds):
     from tartiflette import Directive, Resolver, Scalar, Subscription, TypeResolver
     name = "bundle%d" % i
@@ -67,22 +89,11 @@ def register(i, kinds):
         @TypeResolver("Node", schema_name=name)
         def tr(result, ctx, info, abstract_type):
             return "Item" if (result["id"] < 10) == bool(i % 2) else "Item2"
+    # one implementation *class* shared by all bundles, configured per instance (state lives on the instance)
     if "scalar" in kinds:
-        @Scalar("Money", schema_name=name)
-        class Money:
-            def coerce_output(self, v):
-                return "%d:%s" % (i, v)
-
-            def coerce_input(self, v):
-                return int(v) + i
-
-            def parse_literal(self, ast):
-                return int(ast.value) + 10 * i
+        Scalar("Money", schema_name=name)(MoneyImpl(i))
     if "directive" in kinds:
-        @Directive("tag", schema_name=name)
-        class Tag:
-            async def on_field_execution(self, directive_args, next_resolver, parent, args, ctx, info):
-                return "%s-tag%d" % (await next_resolver(parent, args, ctx, info), i)
+        Directive("tag", schema_name=name)(TagImpl(i))
     if "subscription" in kinds:
         @Subscription("Subscription.tick", schema_name=name)
         async def tick(p, a, c, info):
